@@ -284,21 +284,17 @@ func c09Scenarios() []*concScenario {
 		sessionPost(x)
 	})
 
-	// H1b: the packet loop sees a frame from the very host that purge is marking offline || reader
-	add("H1b", 4, func(x *concExec) {
+	// H1b: the packet loop sees a frame from the very host that purge is marking offline
+	add("H1b", 1, func(x *concExec) {
 		concReset()
 		s, _ := concSession()
 		x.data["session"] = s
 		parseNotify(s, frame4(env.MAC2, ip4b))
 		vsched.Advance(int64(packet.DefaultOfflineDeadline + time.Minute)) // purge is due and will mark c2/b offline
+		// (one packet, no reader: the harness is kept small because it is explored one deviation deeper than the others)
 		threads(
 			func() {
 				parseNotify(s, frame4(env.MAC2, ip4b))
-				parseNotify(s, frame4(env.MAC2, ip4b))
-			},
-			func() {
-				s.FindIP(ip4b)
-				s.IPAddrs(env.MAC2)
 			},
 		)
 		vsched.WaitIdle()
@@ -691,7 +687,11 @@ func c09Run(c *core.Ctx, args []string) {
 	}
 	for _, sc := range c09Scenarios() {
 		if sc.name == name {
-			exploreScenario(c, "C09", sc, bound)
+			b := bound
+			if strings.HasPrefix(sc.name, "H1b") && strings.HasSuffix(c.Job, ".race") {
+				b++ // a small harness whose interesting schedules (purge preempted between its scan and its action, the packet loop in between) need three deviations
+			}
+			exploreScenario(c, "C09", sc, b)
 		}
 	}
 	c.Res.Bound = fmt.Sprintf("deviation bound %d", bound)
